@@ -9,7 +9,7 @@ from hgv import gen
 from hgv import tsmodel as tm
 from hgv.runner import Result, Viol
 from hgv.trace import Trace
-from hgv.worker import HarnessError
+from hgv.worker import HarnessError, Rejected
 
 ID = "C11"
 ASAN_THOROUGH = True   # thorough tier runs against the AddressSanitizer build
@@ -79,7 +79,7 @@ def check(case, ctx) -> Result:
         res.violations.append(Viol("engine_crash", f"worker died {resp.get('signal')} {resp.get('stderr', '')[-500:]}"))
         return res
     if not resp.get("built"):
-        raise HarnessError(f"C11 generator produced a program the tree rejects: {resp.get('error')}")
+        raise Rejected(f"C11 generator produced a program the tree rejects: {resp.get('error')}")
     if resp.get("error"):
         res.violations.append(Viol("run_failed", f"run threw: {resp['error']}"))
         return res
